@@ -8,11 +8,11 @@ LEAN_DRIVERS = ["Ctrl"]
 RULE = ("random job DAGs (0-8 tasks quick / 0-14 thorough; chains, diamonds, fan-in/out, multi-output tasks, isolated tasks, several "
         "components, GPU tasks, any subset of requested outputs incl. non-sinks) x clusters (1-3 hosts x 1-3 workers, GPU subsets "
         "keeping the job feasible) x adversarial seeded schedules of the abstract executors (any order + batching of events, and "
-        "FIFO-per-production order); the REAL controller.impl.run is driven in-process through SimBridge; after every controller "
+        "FIFO-per-production order; task bodies publish their outputs one at a time while controller rounds go on); the REAL controller.impl.run is driven in-process through SimBridge; after every controller "
         "phase (assign/act/plan/flush, notify) the abstraction of the real State and the commands are compared with the Lean model. "
         "non-trivial = run with >=1 inter-host transfer or >=1 fetch or >=1 purge; distinct by hash of (job, cluster, schedule seed)")
 ASSUMPTIONS = [
-    "executors are abstract (SimBridge mirrors Env of Model/Ctrl.lean): a dispatched task runs once its inputs are on its host and publishes outputs in index order; transmit/fetch read the source store; purge is immediate",
+    "executors are abstract (SimBridge mirrors Env of Model/Ctrl.lean plus the non-atomic layer Model/CtrlN.lean): a dispatched task starts once its inputs are in its host's store and publishes its outputs in index order, one environment step per output (in a quarter of the runs all at once), with controller rounds, deliveries, transfers and other bodies interleaved; transmit/fetch read the source store; purge is immediate",
     "controller rounds are atomic with respect to executor steps (commands are asynchronous; the controller reads executor state only in recv_events)",
     "the heuristic choice of (idle worker, computable task) pairs and of the transmit source is an oracle argument validated for admissibility by the model",
     "task values are uninterpreted terms (argument binding inside a task is C10, byte-faithful copies are C07)",
@@ -108,6 +108,10 @@ def correspond(ctx, prop):
         for k in ("transmits", "fetches", "purges"):
             ctx.count(k, st[k])
         ctx.count("controller_rounds", res["rounds"])
+        ctx.count("runs_atomic_bodies" if st["atomic_bodies"] else "runs_nonatomic_bodies")
+        ctx.count("controller_steps_while_a_body_is_between_two_outputs", st["rounds_while_running"])
+        if st["max_running"] > 1:
+            ctx.count("runs_with_several_bodies_running_at_once")
         ctx.count("outcome:" + res["outcome"])
         ctx.count("hosts=%d" % st["hosts"])
         if st["tasks"] == 0:
